@@ -1007,3 +1007,41 @@ fire('ref5-free-worker-property-ignores-running', ['C04'], 'C04.WORKER-GATE',
      (PROC, None, "    def _start_processes(self):", "    @property\n    def _free_worker_count(self) -> int:\n        return max(0, self.max_workers)\n\n    def _start_processes(self):"))
 silent('ref5-debug-logging-in-main-loop', ['C05', 'C11'],
        (LAB, 'TaskCoordinator.run', "                        for task in ready_tasks:\n", "                        if len(ready_tasks) > 0:\n                            logger.debug('submitting %d tasks', len(ready_tasks))\n                        for task in ready_tasks:\n"))
+
+
+# -- round-6 obligations ----------------------------------------------------------------------------------------------------
+fire('r6-warn-before-rollback', ['C12', 'C13'], 'C12.ROLLBACK-COVER',
+     (CACHE, 'BaseCache.save', "            storage.delete(task.cache_key)\n            raise", "            warnings.warn('save failed')\n            storage.delete(task.cache_key)\n            raise"),
+     (CACHE, None, "import json\n", "import json\nimport warnings\n"))
+silent('r6-plain-log-before-rollback', ['C12', 'C13'],
+       (CACHE, 'BaseCache.save', "            storage.delete(task.cache_key)\n            raise", "            logger.debug('save failed, removing the partial entry')\n            storage.delete(task.cache_key)\n            raise"),
+       (CACHE, None, "import json\n", "import json\nfrom .utils import logger\n"))
+fire('r6-delete-named-file-first', ['C12', 'C13'], 'C12.DELETE-TOTAL',
+     (STOR, 'LocalStorage.delete', "            shutil.rmtree(key_path)", "            (key_path / 'metadata.json').unlink()\n            shutil.rmtree(key_path)"))
+fire('r6-mlflow-call-after-run', ['C10'], 'C10.MLFLOW-IN-RUN',
+     ('labtech/runners/base.py', 'optional_mlflow', "            log_params(task)\n            yield\n", "            log_params(task)\n            yield\n        mlflow.set_tag('labtech_done', 'yes')\n"))
+fire('r6-yield-under-catch-all', ['C14', 'C10'], 'SWEEP.YIELD-OUTSIDE-CATCH-ALL',
+     (PROC, 'ProcessRunner.wait', "            except BaseException as ex:\n                yield (task, ex)\n            else:\n                self.results_map[task] = task_result\n                yield (task, task_result.meta)",
+      "                self.results_map[task] = task_result\n                yield (task, task_result.meta)\n            except BaseException as ex:\n                yield (task, ex)"))
+fire('r6-consumer-submits-through-helper', ['C14'], 'C14.HANDLER',
+     (LAB, 'TaskCoordinator.run', "        def process_completed_tasks():", "        def resubmit(task):\n            runner.submit_task(task, task_name='again', use_cache=False)\n\n        def process_completed_tasks():"),
+     (LAB, 'TaskCoordinator.run', "                    self.handle_failure(ex=res, message=f\"Task '{task}' failed.\")", "                    self.handle_failure(ex=res, message=f\"Task '{task}' failed.\")\n                    resubmit(task)"))
+
+
+# -- representative refactoring round: an extracted search helper ---------------------------------------------------------------
+_INNER = ("            for task_type in task_types:\n                try:\n                    task = task_type._lt.cache.load_task(self._storage, task_type, key)\n"
+          "                except TaskNotFound:\n                    pass\n                else:\n                    tasks.append(task)\n                    break\n")
+_HELPER = ("    def _load_for_key(self, task_types, key):\n        for task_type in %s:\n            try:\n"
+           "                return task_type._lt.cache.load_task(self._storage, task_type, key)\n            except %s:\n                %s\n        %s\n\n")
+silent('ref6-search-helper-raise', ['C08', 'C09'],
+       (LAB, 'Lab.cached_tasks', _INNER, "            try:\n                task = self._load_for_key(task_types, key)\n            except TaskNotFound:\n                continue\n            tasks.append(task)\n"),
+       (LAB, None, "    def is_cached(self, task: Task) -> bool:", _HELPER % ('task_types', 'TaskNotFound', 'pass', 'raise TaskNotFound') + "    def is_cached(self, task: Task) -> bool:"))
+silent('ref6-search-helper-none', ['C08', 'C09'],
+       (LAB, 'Lab.cached_tasks', _INNER, "            task = self._load_for_key(task_types, key)\n            if task is not None:\n                tasks.append(task)\n"),
+       (LAB, None, "    def is_cached(self, task: Task) -> bool:", _HELPER % ('task_types', 'TaskNotFound', 'continue', 'return None') + "    def is_cached(self, task: Task) -> bool:"))
+fire('ref6-search-helper-first-type-only', ['C09'], 'C09.LOOP',
+     (LAB, 'Lab.cached_tasks', _INNER, "            task = self._load_for_key(task_types, key)\n            if task is not None:\n                tasks.append(task)\n"),
+     (LAB, None, "    def is_cached(self, task: Task) -> bool:", _HELPER % ('task_types[:1]', 'TaskNotFound', 'continue', 'return None') + "    def is_cached(self, task: Task) -> bool:"))
+fire('ref6-search-helper-swallows-everything', ['C09'], 'C09.LOOP',
+     (LAB, 'Lab.cached_tasks', _INNER, "            task = self._load_for_key(task_types, key)\n            if task is not None:\n                tasks.append(task)\n"),
+     (LAB, None, "    def is_cached(self, task: Task) -> bool:", _HELPER % ('task_types', 'Exception', 'continue', 'return None') + "    def is_cached(self, task: Task) -> bool:"))
